@@ -13,13 +13,13 @@ RULE = ("sequential histories (25-55 API calls) over random layouts: 1-3 pools f
 def run(ctx):
     design = [{"module": "MC_IPAM", "cfg": "MC_c20_quick.cfg", "thorough_cfg": "MC_c20.cfg", "workers": 4,
                "allow_zero": _ipam.ALLOW_ZERO, "timeout": 600, "thorough_timeout": 1700}]
-    _ipam.leg(ctx, BASE, "tlc-schedules", design=design,
-              gen={"module": "Gen_IPAM", "cfg": "Gen_sim_c20.cfg", "simulate": {"num": 60, "depth": 120},
-                   "thorough_simulate": {"num": 3000, "depth": 120}, "timeout": 600, "thorough_timeout": 1500},
-              nontrivial=_ipam.constrained_assign, rule=RULE)
-    if ctx.violations:
-        return
-    _ipam.leg(ctx, BASE, "seeded-sequential", n_random=(60, 2500), mode="seq", nontrivial=_ipam.constrained_assign, rule=RULE)
+    P, _ = _ipam.leg(ctx, BASE, "tlc-schedules+seeded-sequential", design=design,
+              gen={"module": "Gen_IPAM", "cfg": "Gen_sim_c20.cfg", "simulate": {"num": 50, "depth": 120},
+                   "thorough_simulate": {"num": 1500, "depth": 120}, "timeout": 600, "thorough_timeout": 1500},
+              n_random=(50, 1200), mode="seq", nontrivial=_ipam.constrained_assign, rule=RULE)
+    # the literal reading of the cap (all confirmed claims of the host, in whatever pool) is judged on the soft channel
+    _ipam.handle_soft(ctx, P, kind="block-cap", classify=_ipam.classify_cap,
+                      what="a host holds more confirmed affine blocks than the global MaxBlocksPerHost")
 
 
 def selftest(ctx):
